@@ -75,6 +75,7 @@ def main():
                 rows.append((sid, prop, 'patch-does-not-apply', '', 0))
                 continue
             env = {'VERIF_REPO': root, 'PYTHONPATH': root}
+        t_seed0 = time.time() - 1
         try:
             info = {}
             if confirm:
@@ -115,14 +116,20 @@ def main():
             if verdict.startswith('error'):
                 print(out[-1500:])
         finally:
+            # the Generated/*.lean files now reflect the mutated source: restore the baselines before the next seed
+            for fn in os.listdir(bak):
+                dst = os.path.join(gen, fn)
+                try:
+                    if os.path.getmtime(dst) >= t_seed0 and open(dst).read() != open(os.path.join(bak, fn)).read():
+                        shutil.copy2(os.path.join(bak, fn), dst)
+                except OSError:
+                    pass
             if inplace:
                 sh(['git', '-C', '/repo', 'checkout', '--', '.'])
             else:
                 sh(['git', '-C', '/repo', 'worktree', 'remove', '--force', root])
                 sh('git -C /repo worktree prune')
     # after runs against a mutated source the Generated/*.lean files reflect it: restore the committed baselines
-    for fn in os.listdir(bak):
-        shutil.copy2(os.path.join(bak, fn), os.path.join(gen, fn))
     shutil.rmtree(bak, ignore_errors=True)
     with open(os.path.join(SEEDED, 'RESULTS.md'), 'a') as f:
         f.write('\n### run %s tier=%s mode=%s\n\n| seeded change | property | verdict | how | s |\n|---|---|---|---|---|\n' %
